@@ -59,25 +59,35 @@ Section Narrow.
     inversion H. left; reflexivity.
   Qed.
 
-  Theorem get_hwires_OUTSIDE_pin : forall usum i q x p,
-    hpin_occ s t (i :: q :: x :: p) ->
-    exists l, get_hwires s SOutside false usum (i :: q :: x :: p) = Some l /\
+  (* OUTSIDE: the wire in the parent on which the instance's pin sits; the top instance has no
+     enclosing occurrence, hence no outside wire *)
+  Theorem get_hwires_OUTSIDE_pin : forall usum i q x x' p',
+    hpin_occ s t (i :: q :: x :: x' :: p') ->
+    exists l, get_hwires s SOutside false usum (i :: q :: x :: x' :: p') = Some l /\
               forall b, In b l <-> exists w c, assoc i (ipins s x) = Some (Some w) /\
-                                               par s RWires w = Some c /\ b = w :: c :: p.
+                                               par s RWires w = Some c /\ b = w :: c :: x' :: p'.
   Proof.
-    intros usum i q x p G.
+    intros usum i q x x' p' G.
     destruct (narrow_from_pin SOutside usum _ eq_refl G) as (l & El & Sl).
     exists l. split; [exact El|]. intro b. rewrite Sl. unfold nb_sel. cbn [sel_in sel_out app].
     unfold opt_list.
-    rewrite <- (outer_spec s i q x p b).
-    destruct (outer_hwire s (i :: q :: x :: p)) as [h|]; cbn; split; intro H;
+    rewrite <- (outer_spec s i q x x' p' b).
+    destruct (outer_hwire s (i :: q :: x :: x' :: p')) as [h|]; cbn; split; intro H;
       try (destruct H as [H|[]]; congruence); try contradiction; try discriminate.
     inversion H. left; reflexivity.
   Qed.
 
+  Theorem get_hwires_OUTSIDE_top_pin : forall usum i q,
+    hpin_occ s t [i; q; t] -> get_hwires s SOutside false usum [i; q; t] = Some [].
+  Proof.
+    intros usum i q G.
+    destruct (narrow_from_pin SOutside usum _ eq_refl G) as (l & El & Sl).
+    rewrite El. f_equal. destruct l as [|b l]; [reflexivity|].
+    exfalso. apply (proj1 (Sl b)). left; reflexivity.
+  Qed.
+
   (* pins of a hierarchical wire *)
   Hypothesis C : WFc s.
-  Hypothesis Htop : par s RChildren t = None.
 
   Theorem get_hpins_of_hwire : forall x, hwire_occ s t x ->
     exists l, get_hpins s false x = Some l /\
@@ -104,37 +114,36 @@ Section PinStart.
   Hypothesis I2 : Inv2a s.
   Hypothesis K : WFk s.
   Hypothesis C : WFc s.
-  Hypothesis Htop : par s RChildren t = None.
   Hypothesis Hroot : is_root s t.
 
   Theorem get_hwires_ALL_pin : forall n U a,
     acyclic s -> top s n = Some t -> all_hwires s n = Some U -> hpin_occ s t a ->
     exists l, get_hwires s SAll false (pin_weight s U) a = Some l /\
-              (forall b, In b l <-> exists x, In x (nb_sel s SAll a) /\ Conn.conn s x b).
+              (forall b, In b l <-> exists x, In x (nb_sel s SAll a) /\ Conn.conn s t x b).
   Proof.
     intros n U a A Ht HU G.
     destruct (all_hwires_spec s n t I1 K A Ht) as (U' & EU & NU & SU).
     rewrite HU in EU. inversion EU; subst U'. clear EU.
     pose proof (GA_valid s t I1 I2 K Hroot a G) as Hv.
     assert (Hreach : forall b, reach href href (nb_sel s SAll) (hpins_of_hwire s) [a] b <->
-                               exists x, In x (nb_sel s SAll a) /\ Conn.conn s x b).
+                               exists x, In x (nb_sel s SAll a) /\ Conn.conn s t x b).
     { intro b. split.
       - intro H. assert (Hx : exists x, In x (nb_sel s SAll a)).
         { clear -H. induction H as [a0 b Ha Hb|b a0 b' _ IH _ _]; [|exact IH].
           destruct Ha as [<-|[]]. eauto. }
         destruct Hx as (x & Hx). exists x. split; [exact Hx|].
-        apply (code_conn_iff_conn s t I1 C Htop x b (g_nb s t I1 C Htop a x G Hx)).
+        apply (code_conn_iff_conn s t I1 C x b (g_nb s t I1 C a x G Hx)).
         apply (reach_pin_conn href href (nb_sel s SAll) (hpins_of_hwire s) (hpin_occ s t) (sym2 s t I1 C) a x b G Hx).
         exact H.
       - intros (x & Hx & H).
         apply (reach_pin_conn href href (nb_sel s SAll) (hpins_of_hwire s) (hpin_occ s t) (sym2 s t I1 C) a x b G Hx).
-        apply (code_conn_iff_conn s t I1 C Htop x b (g_nb s t I1 C Htop a x G Hx)). exact H. }
+        apply (code_conn_iff_conn s t I1 C x b (g_nb s t I1 C a x G Hx)). exact H. }
     destruct (worklist_closure_correct href href href_eqb href_eqb href_eqb_spec href_eqb_spec
                 (nb_sel s SAll) (hpins_of_hwire s) U [a] (close_fuel (pin_weight s U) [a]) NU) as (l & El & _ & Sl).
     { intros b Hb. apply SU. apply Hreach in Hb as (x & Hx & Hc).
-      pose proof (g_nb s t I1 C Htop a x G Hx) as Gx.
-      apply (code_conn_good s t I1 C Htop x b Gx).
-      apply (code_conn_iff_conn s t I1 C Htop x b Gx). exact Hc. }
+      pose proof (g_nb s t I1 C a x G Hx) as Gx.
+      apply (code_conn_good s t I1 C x b Gx).
+      apply (code_conn_iff_conn s t I1 C x b Gx). exact Hc. }
     { unfold close_fuel, pin_weight. cbn [length]. lia. }
     destruct a as [|i r]; [destruct G as (? & ? & ? & ? & E & _); discriminate|].
     assert (Hk : kind_of s i = Some KPin).
